@@ -3135,7 +3135,16 @@ public:
     {
         if(is_constant_evaluated())
         {
-            return string_length(data());
+            // the scan must stop at `size()`: the array is not required to
+            // contain a null character
+            const auto first = data();
+            std::size_t length{};
+            // NOLINTNEXTLINE(cppcoreguidelines-pro-bounds-pointer-arithmetic)
+            for(; (length != size()) && (first[length] != '\0'); length++)
+            {
+            }
+
+            return length;
         }
         else
         {
